@@ -365,5 +365,43 @@ def run(ctx):
             ctx.report(case, 'failure', 'numpy-entry-%s: numpy.%s(UTPM) differs from algopy.%s(UTPM)' % (name, name, name))
 
 
+    # the exported class algopy.UTP (UTPM with another constructor): every function gives the coefficients it gives for UTPM
+    for name in sorted(TABLE):
+        for vectorized in (False, True):
+            case = gen_case(ctx.rng, ctx.tier, name, False)
+            x = np.array(case['x'])
+            if not vectorized:
+                x = x[:, :1]
+                case['x'], case['P'] = x, 1
+            case['utp'] = 'vectorized' if vectorized else 'plain'
+            ctx.evaluations += 1
+            ctx.count('entry=UTP')
+            res = utp_fails(case)
+            if res:
+                ctx.report(case, 'failure', res)
+
+
+def utp_fails(case):
+    e = TABLE[case['fn']]
+    x = np.array(case['x'])
+    st, want = run_impl(case)
+    if st != 'ok':
+        return None
+    u = algopy.UTP(x.copy(), vectorized=True) if case['utp'] == 'vectorized' else algopy.UTP(x[:, 0].copy())
+    try:
+        y = e['call'](u, case)
+    except Exception as ex:
+        return 'utpclass-exception-%s: %s' % (case['fn'], type(ex).__name__ + ':' + str(ex)[:80])
+    if y.data.shape != want.shape or not close(y.data, want, 1e-12):
+        return 'utpclass-%s: on a UTP object the result coefficient array has shape %s (UTPM: %s) or other values' % (case['fn'], y.data.shape, want.shape)
+    return None
+
+
 def search(ctx, case, what):
     return None
+
+
+def replay_case(ctx, case):
+    if case.get('utp'):
+        return utp_fails(case)
+    return run_case(ctx, case) or oracle_fails(case)
